@@ -1136,8 +1136,9 @@ impl Parser {
                     .into());
                 }
             },
+            // a decimal too large for a float parses to infinity: that is out of range as well
             TokenKind::FloatLit(s) => match s.parse::<f64>() {
-                Ok(_) => {
+                Ok(f) if f.is_finite() => {
                     self.consume_token();
                     Expr {
                         kind: Rc::new(ExprKind::Float(s)),
@@ -1145,7 +1146,7 @@ impl Parser {
                         id: NodeId::new(),
                     }
                 }
-                Err(_) => {
+                _ => {
                     return Err(Error::ProblematicToken(
                         "Could not parse float literal. Out of range?".into(),
                         self.current_token_location(),
@@ -1176,7 +1177,7 @@ impl Parser {
                     TokenKind::FloatLit(s) => {
                         let f_string = "-".to_string() + &s;
                         match f_string.parse::<f64>() {
-                            Ok(_) => {
+                            Ok(f) if f.is_finite() => {
                                 self.consume_token();
                                 Expr {
                                     kind: Rc::new(ExprKind::Float(f_string)),
@@ -1184,7 +1185,7 @@ impl Parser {
                                     id: NodeId::new(),
                                 }
                             }
-                            Err(_) => {
+                            _ => {
                                 return Err(Error::ProblematicToken(
                                     "Could not parse negated float literal. Out of range?".into(),
                                     self.current_token_location(),
